@@ -23,6 +23,8 @@ func init() {
 				c.flagDefaults(map[string]flagSpec{"writeable": {"false", ".writable", 2}})
 			}},
 			{"C15.plumbing", "the --writeable and authorization options reach the handler fields that are tested", 8, c15Plumbing},
+			{"C15.store-location", "the index server opens the slash-terminated store location in both modes", 2, c15StoreLocation},
+			{"C15.effective-config-writes", "option fallbacks assigned to by-value parameters are read afterwards (no lost assignment)", 2, c15EffectiveWrites},
 			{"C15.put-verifies", "uploaded chunk is built by the verifying constructor and stored only if that succeeded", 3, c15PutVerifies},
 			{"C15.confinement", "only a parsed ChunkID / path.Base name reaches the store; file names are built from the id", 8, c15Confinement},
 		},
@@ -446,4 +448,156 @@ func c15Plumbing(c *Ctx) {
 	if n < 2 {
 		c.bad("plumbing", token.NoPos, "found %d handler constructions in the commands, expected 2", n)
 	}
+}
+
+// c15StoreLocation: the index server opens the store at the normalised location (with the
+// trailing "/": without it the location parser takes the last path element for a file name and
+// the server serves the parent directory).  Both branches (read-only, writable) get the same value
+// and that value is the result of the "append / unless present" normalisation.
+func c15StoreLocation(c *Ctx) {
+	fn := c.mustFn("cmd.runIndexServer")
+	if fn == nil {
+		return
+	}
+	opens := calls(fn, named("cmd.writableIndexStore", "cmd.indexStoreFromLocation"))
+	if len(opens) < 2 {
+		c.bad("cmd.runIndexServer:store-location", fn.Pos(), "expected the read-only and the writable store constructor, found %d", len(opens))
+		return
+	}
+	var first ssa.Value
+	for _, o := range opens {
+		a := o.Common().Args[0]
+		_ = first
+		norm := false
+		for _, org := range origins(a) {
+			if org == "binop:+" {
+				norm = true
+			}
+		}
+		// the concatenation appends the constant "/"
+		slash := false
+		var walk func(v ssa.Value, d int)
+		walk = func(v ssa.Value, d int) {
+			if d > 6 {
+				return
+			}
+			switch x := v.(type) {
+			case *ssa.Phi:
+				for _, e := range x.Edges {
+					walk(e, d+1)
+				}
+			case *ssa.BinOp:
+				if k, ok := x.Y.(*ssa.Const); ok && x.Op == token.ADD && k.Value != nil && k.Value.ExactString() == `"/"` {
+					slash = true
+				}
+			}
+		}
+		walk(a, 0)
+		c.verdict(norm && slash, "cmd.runIndexServer:"+callee(o)+":location", o.Pos(), "opened at the location normalised with a trailing slash",
+			fmt.Sprintf("the store constructor is not given the slash-terminated location (origins %v): without the trailing slash the last path element is parsed as a file name and the server reads and writes index files in the parent directory of the configured store", origins(a)))
+	}
+}
+
+// c15EffectiveWrites: an assignment to a field of a by-value receiver or parameter that is not
+// read afterwards is lost when the function returns (the caller's copy is unchanged).  In the
+// command package this is how a configuration fallback (authorization from DESYNC_HTTP_AUTH)
+// silently stops having an effect.
+func c15EffectiveWrites(c *Ctx) {
+	n := 0
+	for _, fn := range c.Funcs {
+		if fn.Blocks == nil {
+			continue
+		}
+		// cells holding by-value struct parameters
+		cells := map[*ssa.Alloc]*ssa.Parameter{}
+		for _, p := range fn.Params {
+			if _, isStruct := p.Type().Underlying().(*types.Struct); !isStruct || p.Referrers() == nil {
+				continue
+			}
+			for _, r := range *p.Referrers() {
+				if st, ok := r.(*ssa.Store); ok && st.Val == p {
+					if al, ok := st.Addr.(*ssa.Alloc); ok {
+						cells[al] = p
+					}
+				}
+			}
+		}
+		if len(cells) == 0 {
+			continue
+		}
+		rootCell := func(v ssa.Value) *ssa.Alloc {
+			for {
+				switch x := v.(type) {
+				case *ssa.FieldAddr:
+					v = x.X
+				case *ssa.Alloc:
+					return x
+				default:
+					return nil
+				}
+			}
+		}
+		instrs(fn, func(b *ssa.BasicBlock, i int, ins ssa.Instruction) {
+			st, ok := ins.(*ssa.Store)
+			if !ok {
+				return
+			}
+			fa, ok := st.Addr.(*ssa.FieldAddr)
+			if !ok {
+				return
+			}
+			cell := rootCell(fa)
+			if cell == nil || cells[cell] == nil {
+				return
+			}
+			if cell.Heap && escapesToClosure(cell) {
+				return // captured by a closure: read later elsewhere
+			}
+			n++
+			// is the cell (or anything inside it) read after the store?
+			read := false
+			after := reachableFrom(b, nil)
+			instrs(fn, func(b2 *ssa.BasicBlock, j int, in2 ssa.Instruction) {
+				if read {
+					return
+				}
+				if b2 == b && j <= i && !after[b] {
+					return
+				}
+				if b2 != b && !after[b2] {
+					return
+				}
+				if b2 == b && j <= i && !inLoop(b) {
+					return
+				}
+				switch x := in2.(type) {
+				case *ssa.UnOp:
+					if x.Op == token.MUL && rootCell(x.X) == cell {
+						read = true
+					}
+				case ssa.CallInstruction:
+					for _, a := range x.Common().Args {
+						if rootCell(a) == cell {
+							read = true // address handed to a callee
+						}
+					}
+				}
+			})
+			c.verdict(read, fmt.Sprintf("%s:%s", fnKey(fn), fieldOf(fa)), st.Pos(), "the assigned field of the by-value parameter is read afterwards",
+				fmt.Sprintf("the assignment to %s of by-value parameter %s is never read afterwards: the function works on a copy, the caller's value is unchanged and the assignment has no effect (a configuration fallback such as the authorization token from the environment is silently lost)", fieldOf(fa), cells[cell].Name()))
+		})
+	}
+	c.ok("effective-writes", token.NoPos, "%d assignment(s) to fields of by-value parameters in the command package, all read afterwards", n)
+}
+
+func escapesToClosure(al *ssa.Alloc) bool {
+	if al.Referrers() == nil {
+		return false
+	}
+	for _, r := range *al.Referrers() {
+		if _, ok := r.(*ssa.MakeClosure); ok {
+			return true
+		}
+	}
+	return false
 }
